@@ -1039,6 +1039,21 @@ func main() {
 			}
 		}
 	}
+	// tail calls with NO operand between a branch and the call (zero-parameter callees): in the interpreter's operation list
+	// the exit-code check of such a tail call directly follows a label - the fall-through of br_if, the then / else
+	// label of an if, the header of a loop nobody branches back to - which is where a header check looks redundant
+	for _, tb := range tailAfterBranchModules() {
+		bp := &c07.Prog{Name: tb.name, HostCB: []int{}, NonTerm: true, Text: tb.text}
+		for _, eng := range []string{"interpreter", "compiler"} {
+			for ci, cause := range causes {
+				if !hx.Thorough() && ci != len(tb.name)%len(causes) {
+					continue
+				}
+				j := job{Prog: bp.Name, Text: bp.Text, Wasm: hex.EncodeToString(tb.bin), Entry: "f0", Arg: 1, HostCB: []int{}, Engine: eng, Cause: cause, Timing: "during", DelayUs: 25000, Code: 7}
+				plan = append(plan, planned{j, bp, prediction{raw: "every turn of the tail-call cycle passes the check of a return_call (repaired variant); zero-parameter callees are outside the generated DSL"}, false})
+			}
+		}
+	}
 	// blocked, not looping: the guest sits in memory.atomic.wait32 on its own shared memory (nobody notifies).
 	// "Whatever the guest is doing" includes this: no cycle is involved, so no exit-code check is ever reached;
 	// only the wait itself could notice the cause.
@@ -1105,6 +1120,44 @@ func main() {
 // blockedWaitModule: (memory 1 1 shared) (func (export "f0") (param i32)
 //
 //	(drop (memory.atomic.wait32 (i32.const 0) (i32.const 0) (i64.const timeout))))
+type tailBranchMod struct {
+	name, text string
+	bin        []byte
+}
+
+// tailAfterBranchModules: f0(i32) calls the zero-parameter function 1, which spins through return_call only.
+func tailAfterBranchModules() []tailBranchMod {
+	rc := func(f uint32) []byte { return wb.Cat(wb.Op(wasm.OpcodeTailCallReturnCall), wb.U32(f)) }
+	shapes := []struct {
+		name, text string
+		body       []byte // of function 1 (zero parameters), tail-calling itself
+		extra      []byte // optional function 2
+	}{
+		{"tail-after-br_if", "(func $a (block (br_if 0 (i32.const 0)) (return_call $a)))",
+			wb.Cat(wb.Op(wasm.OpcodeBlock, 0x40), wb.I32Const(0), wb.Op(wasm.OpcodeBrIf), wb.U32(0), rc(1), wb.Op(wasm.OpcodeEnd)), nil},
+		{"tail-in-then", "(func $a (if (i32.const 1) (then (return_call $a))))",
+			wb.Cat(wb.I32Const(1), wb.Op(wasm.OpcodeIf, 0x40), rc(1), wb.Op(wasm.OpcodeEnd)), nil},
+		{"tail-in-else", "(func $a (if (i32.const 0) (then nop) (else (return_call $a))))",
+			wb.Cat(wb.I32Const(0), wb.Op(wasm.OpcodeIf, 0x40), wb.Op(wasm.OpcodeNop), wb.Op(wasm.OpcodeElse), rc(1), wb.Op(wasm.OpcodeEnd)), nil},
+		{"tail-in-loop-without-back-edge", "(func $a (loop (return_call $a)))",
+			wb.Cat(wb.Op(wasm.OpcodeLoop, 0x40), rc(1), wb.Op(wasm.OpcodeEnd)), nil},
+		{"tail-ping-pong-in-then-and-else", "(func $a (if (i32.const 1) (then (return_call $b)))) (func $b (if (i32.const 0) (then nop) (else (return_call $a))))",
+			wb.Cat(wb.I32Const(1), wb.Op(wasm.OpcodeIf, 0x40), rc(2), wb.Op(wasm.OpcodeEnd)),
+			wb.Cat(wb.I32Const(0), wb.Op(wasm.OpcodeIf, 0x40), wb.Op(wasm.OpcodeNop), wb.Op(wasm.OpcodeElse), rc(1), wb.Op(wasm.OpcodeEnd))},
+	}
+	var out []tailBranchMod
+	for _, sh := range shapes {
+		m := wb.New()
+		m.AddFunc(wb.Func{Params: []byte{wb.I32}, Export: "f0", Body: wb.Call(1)})
+		m.AddFunc(wb.Func{Body: sh.body})
+		if sh.extra != nil {
+			m.AddFunc(wb.Func{Body: sh.extra})
+		}
+		out = append(out, tailBranchMod{sh.name, sh.text, m.Bytes()})
+	}
+	return out
+}
+
 func blockedWaitModule(timeout int64) []byte {
 	m := wb.New()
 	one := uint32(1)
